@@ -40,7 +40,11 @@ def py(x):
 
 def to_rep(iso, s):
     """Permanently convert a copy of iso to the label state s (spec/IsoConvert.tla record)."""
-    c = clone(iso)
+    return convert_in_place(clone(iso), s)
+
+
+def convert_in_place(c, s):
+    """Permanently convert THIS object to the label state s (its caches and history stay with it)."""
     cur = labels_of(c)
     kw = {}
     if (cur["pm"], cur["pu"]) != (s["pm"], s["pu"]):
